@@ -5,6 +5,7 @@ import (
 	"errors"
 	"fmt"
 	"io"
+	"math"
 	"math/big"
 	"strings"
 
@@ -60,7 +61,7 @@ func runCallbackParser(r io.Reader, policy string) (events []pEvent, ret error, 
 			panicked = p
 		}
 	}()
-	ret = parser.ParseStreamCallback(r, parser.NewDefaultConfig(), func(n *shared.ParserNode, err error) (bool, error) {
+	ret = parser.ParseStreamCallback(r, lexCfg, func(n *shared.ParserNode, err error) (bool, error) {
 		if err != nil {
 			events = append(events, errEvent(err))
 			if policy == "stop" {
@@ -96,6 +97,9 @@ func exactFloat(lit string) (float64, bool) {
 		return 0, false
 	}
 	f, _ := r.Float64()
+	if f == 0 && strings.HasPrefix(lit, "-") {
+		f = math.Copysign(0, -1) // big.Rat has no negative zero; strconv gives -0 for "-0", "-0.0", "-0e5" ...
+	}
 	return f, true
 }
 
@@ -125,9 +129,13 @@ func chars(cs []string) string {
 	return b.String()
 }
 
+// sameFloat: the same value, and the same sign when it is a zero
 func sameFloat(a, b float64) bool {
-	return a == b || (a != a && b != b)
+	return (a == b && math.Signbit(a) == math.Signbit(b)) || (a != a && b != b)
 }
+
+// the parser configuration the tokenizer modes run under (lexer-replay arg "cc": another comment character)
+var lexCfg = parser.NewDefaultConfig()
 
 // checkLexed compares the events the real parser produced for "H:\n<line>\n" with the
 // specification's classification of <line>
@@ -181,6 +189,10 @@ func checkLexed(c *lexCase, text string, ev []pEvent, ret error, lineNo int) str
 // before any heading (orphan context).
 func lexerReplay(e *env) error {
 	kinds := map[string]int{}
+	if cc := e.argStr("cc", "#"); cc != "#" {
+		lexCfg = parser.Config{CommentChar: cc[0]}
+		defer func() { lexCfg = parser.NewDefaultConfig() }()
+	}
 	return e.eachCase(func(raw json.RawMessage) error {
 		var c lexCase
 		if err := json.Unmarshal(raw, &c); err != nil {
